@@ -11,6 +11,7 @@ import OdlModel.Model.Solvers
 import OdlModel.Model.SolversResume
 import OdlModel.Lemmas.Solvers
 import Mathlib.Algebra.Module.Basic
+import Mathlib.Algebra.Module.Prod
 import Mathlib.Algebra.Field.Rat
 import Mathlib.Algebra.Order.Field.Rat
 import Mathlib.Tactic.Module
@@ -405,6 +406,108 @@ example :
     PdhgAccP.accel, lincomb, smul_eq_mul, Option.getD, id]
   norm_num
 end
+
+/-! ### Round 4: conjugate gradients called again with the returned `x` (a RESTART, not a resumption) -/
+section
+variable {K V W : Type} [Field K] [DecidableEq K] [AddCommGroup V] [Module K V] [AddCommGroup W] [Module K W]
+set_option linter.unusedSectionVars false
+
+/-- `conjugate_gradient` with a LINEAR operator (additive, homogeneous; symmetry is not needed):
+after every number of iterations the residual buffer `r`, which the loop only ever updates by
+`r.lincomb(1, r, -alpha, d)`, is the true residual `rhs - op(x)`, and `sqnorm_r_old` is its squared
+norm — including after the early `return`s. -/
+theorem C11.cg_residual_carried (P : CgP K V) (hadd : ∀ u v, P.op (u + v) = P.op u + P.op v)
+    (hsmul : ∀ (c : K) v, P.op (c • v) = c • P.op v) (x0 junk : V) (n : Nat) :
+    let s := P.step^[n] (P.init x0 junk)
+    s.r = P.rhs - P.op s.x ∧ s.sqnormROld = P.nsq s.r := by
+  refine iterate_inv P.step (fun s => s.r = P.rhs - P.op s.x ∧ s.sqnormROld = P.nsq s.r) ?_ n
+    (P.init x0 junk) ⟨by simp only [CgP.init, lincomb]; module, rfl⟩
+  intro s ⟨h1, h2⟩
+  obtain ⟨x, r, p, d, sq, stopped, log⟩ := s
+  simp only at h1 h2
+  subst h1 h2
+  unfold CgP.step
+  cases stopped
+  · by_cases hi : P.inner p (P.op p) = 0
+    · simp [hi]
+    · simp only [Bool.false_eq_true, if_false, hi, lincomb, hadd, hsmul, and_true]
+      module
+  · simp
+
+/-- What "resuming" `conjugate_gradient` does (linear operator): the state a second call builds
+from the returned `x` is the state the first call ended in, EXCEPT that the search direction `p`
+is reset to the residual (and `d` is a fresh buffer, the log empty, and a zero residual stops at
+once).  So `x` and `r` ARE resumed exactly; the conjugacy memory `p` is what is lost — the split
+run is restarted CG.  Tied to the code by the stream `cg_restart` (model op `cgsplit`). -/
+theorem C11.cg_restart_state (P : CgP K V) (hadd : ∀ u v, P.op (u + v) = P.op u + P.op v)
+    (hsmul : ∀ (c : K) v, P.op (c • v) = c • P.op v) (x0 junk junk' : V) (n : Nat) :
+    let s := P.step^[n] (P.init x0 junk)
+    P.init s.x junk' = ⟨s.x, s.r, s.r, junk', s.sqnormROld, decide (s.sqnormROld = 0), []⟩ := by
+  intro s
+  obtain ⟨h1, h2⟩ := C11.cg_residual_carried P hadd hsmul x0 junk n
+  have hr : lincomb (1 : K) P.rhs (-(1 : K)) (P.op s.x) = s.r := by
+    rw [show s.r = P.rhs - P.op s.x from h1]; simp only [lincomb]; module
+  simp only [CgP.init, hr, show s.sqnormROld = P.nsq s.r from h2]
+
+/-- The same for `conjugate_gradient_normal` with a linear operator (`op.derivative(·).adjoint` does
+not depend on the point): `d` is the true residual `rhs - op(x)`, `s` its image under the adjoint,
+`sqnorm_s_old` the squared norm of `s`, after every number of iterations. -/
+theorem C11.cgn_residual_carried (P : CgnP K V W) (hadd : ∀ u v, P.op (u + v) = P.op u + P.op v)
+    (hsmul : ∀ (c : K) v, P.op (c • v) = c • P.op v) (hlin : ∀ u v w, P.dAdj u w = P.dAdj v w)
+    (x0 : V) (junk : W) (n : Nat) :
+    let s := P.step^[n] (P.init x0 junk)
+    s.d = P.rhs - P.op s.x ∧ s.s = P.dAdj s.x s.d ∧ s.sqnormSOld = P.nsqV s.s := by
+  refine iterate_inv P.step
+    (fun s => s.d = P.rhs - P.op s.x ∧ s.s = P.dAdj s.x s.d ∧ s.sqnormSOld = P.nsqV s.s) ?_ n
+    (P.init x0 junk) ⟨by simp only [CgnP.init, lincomb]; module, rfl, rfl⟩
+  intro s ⟨h1, h2, h3⟩
+  obtain ⟨x, d, p, s', q, sq, stopped, log⟩ := s
+  simp only at h1 h2 h3
+  subst h1 h3
+  unfold CgnP.step
+  cases stopped
+  · by_cases hi : P.nsqW (P.op p) = 0
+    · simp only [Bool.false_eq_true, if_false, hi, if_true, true_and, and_true]; exact h2
+    · simp only [Bool.false_eq_true, if_false, hi, lincomb, hadd, hsmul, and_true]
+      exact ⟨by module, hlin _ _ _⟩
+  · simp only [if_true, true_and, and_true]; exact h2
+
+/-- `conjugate_gradient_normal` called again with the returned `x` (linear operator): `x`, `d`, `s`
+and `sqnorm_s_old` are those the first call ended with; the direction `p` is reset to `s`. -/
+theorem C11.cgn_restart_state (P : CgnP K V W) (hadd : ∀ u v, P.op (u + v) = P.op u + P.op v)
+    (hsmul : ∀ (c : K) v, P.op (c • v) = c • P.op v) (hlin : ∀ u v w, P.dAdj u w = P.dAdj v w)
+    (x0 : V) (junk junk' : W) (n : Nat) :
+    let s := P.step^[n] (P.init x0 junk)
+    P.init s.x junk' = ⟨s.x, s.d, s.s, s.s, junk', s.sqnormSOld, false, []⟩ := by
+  intro s
+  obtain ⟨h1, h2, h3⟩ := C11.cgn_residual_carried P hadd hsmul hlin x0 junk n
+  have hr : lincomb (1 : K) P.rhs (-(1 : K)) (P.op s.x) = s.d := by
+    rw [show s.d = P.rhs - P.op s.x from h1]; simp only [lincomb]; module
+  simp only [CgnP.init, hr, ← show s.s = P.dAdj s.x s.d from h2, show s.sqnormSOld = P.nsqV s.s from h3]
+end
+
+/-- …and losing `p` matters: on the SPD system `[[2,1],[1,2]] x = (1,0)` one iteration followed by a
+second call with one iteration does not give the iterate of two iterations (which is the solution). -/
+theorem C11.cg_resume_needs_direction :
+    let P : CgP ℚ (ℚ × ℚ) := ⟨fun v => (2 * v.1 + v.2, v.1 + 2 * v.2), (1, 0),
+      fun u v => u.1 * v.1 + u.2 * v.2, fun v => v.1 * v.1 + v.2 * v.2⟩
+    (P.step^[1] (P.init (P.step^[1] (P.init (0, 0) (0, 0))).x (0, 0))).x ≠
+      (P.step^[1 + 1] (P.init (0, 0) (0, 0))).x := by
+  simp only [Function.iterate_succ, Function.iterate_zero, Function.comp, CgP.step, CgP.init, lincomb]
+  norm_num
+
+/-- Non-vacuity of `cg_residual_carried` / `cg_restart_state`: that operator is additive and
+homogeneous, and the run moves: two iterations reach the solution `(2/3, -1/3)`. -/
+example :
+    let P : CgP ℚ (ℚ × ℚ) := ⟨fun v => (2 * v.1 + v.2, v.1 + 2 * v.2), (1, 0),
+      fun u v => u.1 * v.1 + u.2 * v.2, fun v => v.1 * v.1 + v.2 * v.2⟩
+    (∀ u v, P.op (u + v) = P.op u + P.op v) ∧ (∀ (c : ℚ) v, P.op (c • v) = c • P.op v) ∧
+    (P.step^[1 + 1] (P.init (0, 0) (0, 0))).x = (2 / 3, -1 / 3) := by
+  refine ⟨fun u v => ?_, fun c v => ?_, ?_⟩
+  · simp only [Prod.fst_add, Prod.snd_add, Prod.mk_add_mk, Prod.mk.injEq]; constructor <;> ring
+  · simp only [Prod.smul_fst, Prod.smul_snd, Prod.smul_mk, smul_eq_mul, Prod.mk.injEq]; constructor <;> ring
+  · simp only [Function.iterate_succ, Function.iterate_zero, Function.comp, CgP.step, CgP.init, lincomb]
+    norm_num
 
 /-! ### Callbacks -/
 
